@@ -71,7 +71,7 @@ contract("query:JSONPathQuery.find_one",
     raises_iff=[("JSONPathError", "len(seq(finditer_outcome(self, value))) == 0 and not no_pending(finditer_outcome(self, value))")],
     props=["C15", "C13"])
 
-contract("query:JSONPathQuery.singular_query", heavy=True,
+contract("query:JSONPathQuery.singular_query",
     requires=["wf_query(self, self.env)"], unfold=["wf_query", "wf_segment"],
     ensures=["result == singular(seq(self.segments), len(self.segments))"],
     loops={1: ["singular(seq(self.segments), i1)"]},
